@@ -3,7 +3,7 @@
 EXTENDS Catalogue, Json, TLC
 CONSTANTS StreamFile, OutFile, WithSlots
 Streams == ndJsonDeserialize(StreamFile)
-Slot == IF WithSlots THEN [i \in 1..Len(SlotCases) |-> [kind |-> "slot", forest |-> SlotCases[i]]] ELSE <<>>
+SlotF == IF WithSlots THEN [i \in 1..Len(SlotCases) |-> [kind |-> "slot", forest |-> SlotCases[i]]] ELSE <<>>
 Rand == [i \in 1..Len(Streams) |-> [kind |-> "random", forest |-> GenForest(Streams[i].s)]]
-ASSUME ndJsonSerialize(OutFile, Slot \o Rand)
+ASSUME ndJsonSerialize(OutFile, SlotF \o Rand)
 =============================================================================
